@@ -180,7 +180,11 @@ def run_shard(spec, R):
             if kind == "ndarray":
                 vs = np.array(vs, dtype=float)
             want = np.full(len(shape), vs) if kind == "scalar" else np.array(vs, dtype=float)
-            ok, g = R.guarded("grid_constructible", lambda: darsia.Grid(shape, vs))
+            shape_arg = list(shape) if kind == "list" else tuple(shape)  # the caller's own shape container
+            ok, g = R.guarded("grid_constructible", lambda: darsia.Grid(shape_arg, vs))
+            if ok and kind == "list":
+                shape_arg[0] = shape_arg[0] + 2  # ... which the caller changes afterwards (e.g. to build the next grid)
+                R.check(tuple(int(s_) for s_ in g.shape) == tuple(shape), "shape_kept", {"shape": list(shape), "grid_shape_after_caller_changed_its_list": [int(s_) for s_ in g.shape]})
             if ok:
                 if kind != "scalar":  # the caller goes on using (and overwriting) its own container
                     for d in range(len(shape)):
